@@ -12,8 +12,12 @@ CLAIMED = {
         "Lean 4 theorems (termination without fuel exhaustion, every node once, cluster id = least reachable node, same cluster iff reachable, "
         "isolated nodes are singletons, threshold filter) about a statement-by-statement model of solve_connected_components, for every finite graph; "
         "the model is tied to the code by running both on every labelled graph on <=5 (6) nodes, id permutations and adversarial families, comparing "
-        "the cluster table and the per-iteration needs_updating counts from Splink's own log.",
-        "Trusted: Lean kernel + propext/Classical.choice/Quot.sound; the correspondence harness; DuckDB/SQLite/Spark SQL semantics; ids map to ranks order-isomorphically.",
+        "the cluster table and the per-iteration needs_updating counts from Splink's own log. In addition the SQL statements the function emits NOW are captured and translated "
+        "to relational-algebra terms on every run (T-sql: Generated/CCSql.lean) and Properties/C05Sql.lean proves that this SQL pipeline, under the SQL semantics Rel.eval (three-valued logic, bag "
+        "semantics, NULL rules of NOT IN / min / LEFT JOIN), returns exactly the rows and per-pass counts of the functional model for every graph, threshold, node subset and input row order - so the "
+        "C05 theorems are theorems about the regenerated SQL, and a changed SQL template breaks a proof obligation.",
+        "Trusted: Lean kernel + propext/Classical.choice/Quot.sound; the T-sql translator (sqlglot parse, name resolution, loop-body normalisation) and Rel.eval as the meaning of SQL (validated against "
+        "DuckDB/SQLite on ~600 cases per run); the hand-modelled Python loop control; the correspondence harness; ids map to ranks order-isomorphically.",
         "DESIGN.md §6 C05",
     ),
     "C11": (
@@ -68,7 +72,8 @@ CLAIMED = {
         "(order-independent); observed-data log-likelihood never decreases (Properties/C03Likelihood.lean, abstract mixture EM step). Tie: EVERY iteration of EVERY real training session is replayed one "
         "step at a time through the compiled model (all m, u, lambda, placeholders, stop/continue decision), plus deactivated comparisons, starting prior and medians; textbook EM + log-likelihood oracle.",
         "Trusted: Lean kernel + standard axioms, Mathlib real analysis; floating point (1e-9, one-step replay so no accumulation); level conditions and term frequencies computed by the harness. "
-        "loglik_mono is proved for the abstract EM step with the same formulas; the bridge from Model/EM.step to it is stated in DESIGN.md as partial.",
+        "The M-step bridge is proved (Properties/C03MBridge.lean: EM.step = the abstract EM step under the abstraction, for all session-level fix flags), hence log-likelihood monotonicity of the EXECUTABLE model "
+        "along whole runs (loglik_mono_executable, run_loglik_monotone), over the reals, for TF-free models with positive parameters, level-level fix flags off and a sub-normalised start; each of these hypotheses is shown necessary by a formal witness.",
         "DESIGN.md §6 C03",
     ),
     "C04": (
@@ -83,9 +88,11 @@ CLAIMED = {
     "C19": (
         "Lean 4 theorems about a model of graph_metrics.py / edge_metrics.py (one def per SQL statement; igraph's bridge finder a parameter): degree = incident edges, handshake (sum of degrees = 2 x edges "
         "of the cluster), size / edge count / density / centralisation formulas with their NULL cases and ranges, node centrality, the integer id mapping is a bijection so bridge flags land on the right edges, "
-        "a flagged edge is one whose removal disconnects its endpoints (given the bridge finder's spec), one row per record / edge / cluster. Tie: every column of nodes/edges/clusters outputs vs the compiled "
+        "a flagged edge is one whose removal disconnects its endpoints (the driver's bridge finder is PROVED to meet the specification: C19B.naiveBridges_meets_spec), centralisation <= 1 on every simple graph, "
+        "one row per record / edge / cluster. The SQL statements compute_graph_metrics emits now are regenerated as relational-algebra terms on every run (T-sql: Generated/GMSql.lean) and evaluated by Rel.eval "
+        "(exact rationals) against the engines. Tie: every column of nodes/edges/clusters outputs vs the compiled "
         "model on all graphs <=5 nodes and structured families (composite ids, 1-3 tables, duckdb+sqlite); naive oracle (BFS bridges) cross-checked with networkx.",
-        "Trusted: Lean kernel + standard axioms; igraph's bridges (specified, checked against a naive oracle and networkx); float evaluation of the quotients.",
+        "Trusted: Lean kernel + standard axioms; that igraph's bridges agree with the proved naive finder (checked on every run, also against networkx); float evaluation of the quotients; T-sql translator + Rel.eval (validated against the engines).",
         "DESIGN.md §6 C19",
     ),
     "C07": (
@@ -156,17 +163,18 @@ CLAIMED = {
     "C12": (
         "Lean 4 theorems about a model of one_to_one_clustering.py (the iterative mutual-best-link loop with both row_number() windows as oracle parameters): the result is a partition of the records, "
         "a duplicate-free dataset contributes at most one record to any cluster after EVERY iteration for EVERY tie-break, the loop terminates, and with pairwise distinct probabilities the result is "
-        "maximal (no remaining mutually-best candidate); connectivity through kept edges is proved from the parent-forest invariant (`connected_partial`) and DISPROVED for tied probabilities "
-        "(`connected_counter_ties` = known finding K4). Tie: cluster_using_single_best_links on DuckDB (1/4/16 threads) and SQLite vs the compiled model on every labelled 4-record graph sample, random tie-free "
+        "maximal (no remaining mutually-best candidate) and every cluster is CONNECTED through kept edges (`connected_tie_free`: the run computes the constrained Kruskal partition, "
+        "`partition_is_kruskal_when_tie_free`, independent of the tie-break oracles); connectivity is DISPROVED for tied probabilities (`connected_counter_ties` = known finding K4). Tie: cluster_using_single_best_links on DuckDB (1/4/16 threads) and SQLite vs the compiled model on every labelled 4-record graph sample, random tie-free "
         "and tie-heavy inputs; tied inputs are checked for membership in the set of model outputs over all tie-breaks; independent oracle recomputes the four clauses naively.",
-        "Trusted: Lean kernel + standard axioms; engine semantics of joins/min/row_number; which tie-break an engine realises is a parameter. connected_tie_free is stated as open (conjecture, not claimed as theorem).",
+        "Trusted: Lean kernel + standard axioms; engine semantics of joins/min/row_number; which tie-break an engine realises is a parameter.",
         "DESIGN.md §6 C12",
     ),
     "C16": (
         "A translator (tlevels: instantiates every comparison-level and comparison creator of the library and parses the SQL it emits into a predicate tree) regenerates Generated/Levels.lean on every run; "
         "Lean 4 proves over a three-valued (Kleene) evaluation model: the NULL level and every is_null_level-flagged level are two-valued, And/Or/Not compose as Kleene connectives, every record pair "
         "satisfies exactly one level of a well-formed comparison (first-true + ELSE), threshold families are nested, haversine argument is clipped, and - by `decide` over the regenerated table - every "
-        "library comparison is well formed (`library_exactly_one_level`, `comparison_well_formed_generated`). Tie: the real SQL of every level run on DuckDB and SQLite over value grids (NULL, empty, unicode, "
+        "library comparison is well formed (`library_exactly_one_level`, `comparison_well_formed_generated`). The reference metrics are specified: the quadratic Levenshtein the driver runs equals the textbook "
+        "recursion and is a metric (identity, symmetry, triangle inequality, length bounds), Jaro / Jaro-Winkler / Jaccard lie in [0,1] (Properties/C16Metrics.lean, 27 theorems). Tie: the real SQL of every level run on DuckDB and SQLite over value grids (NULL, empty, unicode, "
         "boundary thresholds) vs the model; metric implementations vs an independent oracle.",
         "Trusted: Lean kernel + standard axioms; the tlevels translator and sqlglot parse; string metrics, regex, date parsing and trigonometric functions are inputs of the model checked differentially.",
         "DESIGN.md §6 C16",
@@ -194,8 +202,9 @@ _TR = "machine-checked proof in Lean 4; part of the model is regenerated from /r
 TECHNIQUE = {
     "C08": "machine-checked proof in Lean 4 about an effect model + exhaustive fault-point enumeration against the running code",
     "C04": _TR.format("T-arith: sampling arithmetic of estimate_u.py"),
-    "C05": _TR.format("T-arith: threshold_args_to_match_prob of misc.py"),
-    "C11": _TR.format("T-arith: threshold_args_to_match_prob_list of misc.py"),
+    "C05": _TR.format("T-sql: the SQL statements solve_connected_components emits, as relational-algebra terms proved to refine the functional model; T-arith: threshold_args_to_match_prob of misc.py"),
+    "C11": _TR.format("T-sql: the SQL statements of the threshold loop of cluster_pairwise_predictions_at_multiple_thresholds and of solve_connected_components; T-arith: threshold_args_to_match_prob_list of misc.py"),
+    "C19": _TR.format("T-sql: the SQL statements compute_graph_metrics emits, as relational-algebra terms evaluated against the engines"),
     "C14": _TR.format("T-arith: calculate_cartesian of misc.py"),
     "C06": _TR.format("T-dialect: function / infinity / array-index table of the five dialects and the comparators the level creators emit, probed on the real backends"),
     "C16": _TR.format("T-levels: predicate tree of every library comparison level and the level list of every library comparison"),
